@@ -1,7 +1,7 @@
 """C03 — Parallel stages hand every work item to exactly one worker and then terminate."""
 PROPERTY = "C03"
 LEVEL = "other"
-CONTRACT_MODULES = ["contracts.specfuns", "contracts.lemmas_desc", "contracts.pyramid", "contracts.parallel"]
+CONTRACT_MODULES = ["contracts.specfuns", "contracts.lemmas_desc", "contracts.pyramid", "contracts.parallel", "contracts.walk", "contracts.reducer"]
 FUNCTIONS = [
     "toasty.pyramid.Pyramid.visit_leaves",
     "toasty.pyramid.Pyramid._visit_leaves_serial",
